@@ -15,7 +15,7 @@ pub const END: u8 = 1;
 pub const START: u8 = 2;
 
 const PAGE: usize = 4096;
-const REGION: usize = 1 << 39; // 512 GiB of address space, never committed
+const REGION: usize = 1 << 42; // 4 TiB of address space, never committed (2^29 guarded allocations per process)
 const MAX_GUARDED: usize = 1 << 20;
 
 thread_local! {
@@ -25,6 +25,8 @@ thread_local! {
 static BASE: AtomicUsize = AtomicUsize::new(0);
 static NEXT: AtomicUsize = AtomicUsize::new(0);
 pub static GUARDED_ALLOCS: AtomicUsize = AtomicUsize::new(0);
+/// allocations requested inside a guard scope that had to fall back to the system allocator
+pub static FALLBACKS: AtomicUsize = AtomicUsize::new(0);
 
 pub struct GuardAlloc;
 
@@ -64,17 +66,20 @@ unsafe impl GlobalAlloc for GuardAlloc {
         }
         let base = region_base();
         if base == 0 {
+            FALLBACKS.fetch_add(1, Ordering::Relaxed);
             return System.alloc(layout);
         }
         let data_pages = (layout.size() + PAGE - 1) / PAGE;
         let span = (data_pages + 1) * PAGE; // data pages + one guard page (the page before is the previous block's guard)
         let off = NEXT.fetch_add(span, Ordering::Relaxed);
         if off + span + PAGE > REGION {
-            // address space exhausted: fall back (the run reports how many allocations were guarded)
+            // address space exhausted: fall back; C15 turns a non-zero fallback count into an inconclusive run
+            FALLBACKS.fetch_add(1, Ordering::Relaxed);
             return System.alloc(layout);
         }
         let start = base + PAGE + off; // first data page; base+off.. is a guard page
         if libc::mprotect(start as *mut libc::c_void, data_pages * PAGE, libc::PROT_READ | libc::PROT_WRITE) != 0 {
+            FALLBACKS.fetch_add(1, Ordering::Relaxed);
             return System.alloc(layout);
         }
         GUARDED_ALLOCS.fetch_add(1, Ordering::Relaxed);
